@@ -78,7 +78,7 @@ fn main() {
             match prop {
                 "C19" => c19::gen(seed, n, &mut out),
                 "C08" | "C09" => c08::gen(prop, seed, n, &mut out),
-                "C10" | "C11" => c10::gen(prop, seed, n, &mut out),
+                "C10" | "C11" | "C12" => c10::gen(prop, seed, n, &mut out),
                 "C01" => c01::gen(seed, n, &mut out),
                 "C02" => c02::gen(seed, n, &mut out),
                 "C03" => c03::gen(seed, n, &mut out),
